@@ -528,6 +528,16 @@ func (w *World) microStep(i int, c *cursor) {
 				co.OpDoneStep[k] = w.step
 			}
 			c.op = c.groupEnd
+			// a close marked "same-step" happens right behind the last segment, before the server runs
+			if nx := c.groupEnd + 1; nx < len(a.Ops) && a.Ops[nx].K == "close" && a.Ops[nx].Note == "same-step" {
+				if ep := w.eps[i]; ep != nil {
+					ep.Close()
+				}
+				co.EndMs = w.nowMs()
+				co.OpStep[nx], co.OpDoneStep[nx] = w.step, w.step
+				w.tracef("a%d close (same step)", i)
+				c.op = nx
+			}
 		}
 	case "close":
 		if ep := w.eps[i]; ep != nil {
